@@ -8,7 +8,7 @@ MC=$(go1.26.8 env GOMODCACHE)
 mkdir -p .build
 [ -x .build/simgen ] || (cd simgen && go1.26.8 build -o ../.build/simgen .)
 rm -rf .build/gen.tmp && mkdir -p .build/gen.tmp
-.build/simgen -src "$REPO" -dst .build/gen.tmp/hagall -module github.com/aukilabs/hagall -skip-dirs cmd,smoketest,websocket/testing.go,docs -stmt-points http/auth.go,models/id.go,receipt/handler.go -report .build/gen.tmp/hagall.report
+.build/simgen -src "$REPO" -dst .build/gen.tmp/hagall -module github.com/aukilabs/hagall -skip-dirs cmd,smoketest,websocket/testing.go,docs -stmt-points http/auth.go,models/id.go,receipt/handler.go,modules/dagaz/grid_spatial_partition.go -report .build/gen.tmp/hagall.report
 .build/simgen -src "$MC/github.com/aukilabs/hagall-common@v0.2.2" -dst .build/gen.tmp/hagall-common -module github.com/aukilabs/hagall-common -instrument websocket/msg.go -exclude-types protoTypeStore -report .build/gen.tmp/common.report
 .build/simgen -src "$MC/golang.org/x/net@v0.38.0" -dst .build/gen.tmp/xnet -module golang.org/x/net -instrument websocket/websocket.go,websocket/hybi.go,websocket/server.go -report .build/gen.tmp/xnet.report
 cp hooks/dagaz_export_verif.go .build/gen.tmp/hagall/modules/dagaz/zz_export_verif.go
